@@ -863,6 +863,22 @@ def synthesise_dataclass_init(trees):
             ast.fix_missing_locations(tree)
 
 
+def normalise_namedtuple_classes(trees):
+    """class K(NamedTuple): a: T; b: T   (fields only, no defaults, no methods)   ->   K = namedtuple('K', ['a', 'b'])"""
+    for tree in trees.values():
+        for i, cls in enumerate(list(tree.body)):
+            if not (isinstance(cls, ast.ClassDef) and len(cls.bases) == 1 and ast.unparse(cls.bases[0]).split('.')[-1] == 'NamedTuple' and not cls.decorator_list and not cls.keywords):
+                continue
+            body = [b for b in cls.body if not (isinstance(b, ast.Expr) and isinstance(b.value, ast.Constant))]
+            if not body or not all(isinstance(b, ast.AnnAssign) and isinstance(b.target, ast.Name) and b.value is None for b in body):
+                continue
+            new = ast.Assign(targets=[ast.Name(id=cls.name, ctx=ast.Store())],
+                             value=ast.Call(func=ast.Name(id='namedtuple', ctx=ast.Load()), args=[ast.Constant(cls.name), ast.List(elts=[ast.Constant(b.target.id) for b in body], ctx=ast.Load())], keywords=[]))
+            ast.copy_location(new, cls)
+            ast.fix_missing_locations(new)
+            tree.body[tree.body.index(cls)] = new
+
+
 def _never_none(v, fn):
     """is the expression certainly not None?  (literals, arithmetic, conversions, parameters that have no None default
     and are not re-bound)"""
@@ -988,6 +1004,7 @@ class Repo:
                 self.modname[rel] = rel[:-3].replace(os.sep, '.')
         try:
             synthesise_dataclass_init(self.trees)
+            normalise_namedtuple_classes(self.trees)
             self.unsupported_properties = normalise_properties(self.trees)
             normalise_optional_attributes(self.trees)
             normalise_keyword_calls(self.trees)
